@@ -32,4 +32,4 @@ def run(ctx):
     ctx.add_samples([json.loads(l) for l in lines[0:6]])
 
 def replay(ctx, path):
-    print(open(path).read()[:4000]); return 0
+    return ctx.replay_trace(path)
